@@ -98,11 +98,25 @@ theorem squashed_are_younger (h : Reach s g) (i : EnvIn) (hq : osquash_X s i = t
   have t := tags_increasing h
   refine ⟨?_, ?_, ?_⟩
   · intro hd
-    simp [hx, hd, List.pairwise_append] at t
-    grind
+    rw [hx, hd] at t
+    have sub : List.Sublist [g.tX, g.tD]
+        (g.commits ++ opt [g.tW] s.val_W ++ opt [g.tM] s.val_M ++ opt [g.tX] true ++ opt [g.tD] true
+          ++ opt [g.tWait] s.drop_wait ++ opt [g.tF] s.val_F) :=
+      ((((((List.nil_sublist g.commits).append (List.nil_sublist _)).append (List.nil_sublist _)).append
+        (List.Sublist.refl [g.tX])).append (List.Sublist.refl [g.tD])).append (List.nil_sublist _)).append
+        (List.nil_sublist _)
+    have := List.Pairwise.sublist sub t
+    simpa using this
   · intro hf
-    simp [hx, hf, List.pairwise_append] at t
-    grind
+    rw [hx, hf] at t
+    have sub : List.Sublist [g.tX, g.tF]
+        (g.commits ++ opt [g.tW] s.val_W ++ opt [g.tM] s.val_M ++ opt [g.tX] true ++ opt [g.tD] s.val_D
+          ++ opt [g.tWait] s.drop_wait ++ opt [g.tF] true) :=
+      ((((((List.nil_sublist g.commits).append (List.nil_sublist _)).append (List.nil_sublist _)).append
+        (List.Sublist.refl [g.tX])).append (List.nil_sublist _)).append (List.nil_sublist _)).append
+        (List.Sublist.refl [g.tF])
+    have := List.Pairwise.sublist sub t
+    simpa using this
   · intro hr
     simp [gnext_nr s g i hr, next_val_X, hx, hs]
 
@@ -126,7 +140,7 @@ end
 delivery to D, or happens while F holds no fetch at all (a response nobody asked for); the ghost log
 `consumedF` records exactly the first three -/
 theorem deq_accounted (s : State) (g : Ghost) (i : EnvIn) (hr : i.reset = false)
-    (_hen : drop_in_en s i = true) (hrdy : drop_in_rdy s i = true) :
+    (hen : drop_in_en s i = true) (hrdy : drop_in_rdy s i = true) :
     (s.drop_wait = true ∧ (gnext s g i).consumedF = g.consumedF ++ [(g.tWait, true)]) ∨
     (s.drop_wait = false ∧ squash_F s i = true ∧ (gnext s g i).consumedF = g.consumedF ++ [(g.tF, true)]) ∨
     (s.drop_wait = false ∧ next_val_F s i = true ∧ (gnext s g i).consumedF = g.consumedF ++ [(g.tF, false)]) ∨
@@ -139,8 +153,8 @@ theorem deq_accounted (s : State) (g : Ghost) (i : EnvIn) (hr : i.reset = false)
     · rcases Bool.eq_false_or_eq_true (next_val_F s i) with hn | hn
       · simp [hw, hq, hn]
       · simp only [hw, hq, hn]
-        simp [drop_in_en, hw, imemresp_en, hq] at _hen
-        simp [next_val_F, hq, _hen] at hn
+        simp [drop_in_en, hw, imemresp_en, hq] at hen
+        simp [next_val_F, hq, hen] at hn
         simp [hn]
 
 /-- conversely the ghost log `consumedF` grows only on a real dequeue -/
